@@ -102,7 +102,8 @@ CLAIMS = {
                 "bytes verify, with destination (0 = broadcast), PDU bytes and consumption exact, for every address, body, "
                 "trailer and decode level. Thorough adds: the same frame delivered as 1+7 bytes (never acted on while incomplete, at "
                 "most the address byte consumed), a 10-byte write-multiple-coils request delivered whole (all three parser "
-                "states in one call; address 0 stays broadcast), an exception reply in the response direction, unknown function "
+                "states in one call; address 0 stays broadcast), a 7-byte read reply delivered whole and an exception reply in the "
+                "response direction (byte count at offset 1, exception bit honoured for replies only), unknown function "
                 "codes and the oversized-PDU refusal; and the generator-polynomial lemma (1-bit, 2-bit within 256 bytes, bursts <= 16 "
                 "bits are detectable by this CRC).",
         "note": "The receive-side queries fix every LENGTH per call site (function code, byte count, delivered prefix); address, "
